@@ -18,7 +18,7 @@
    branches are exercised as well (nothing is claimed for invalid inputs).
 
    A disagreement between this model and the code is DRIFT (information), never a verdict. *)
-EXTENDS JsonDoc, TLC
+EXTENDS JsonSepFn, TLC
 CONSTANTS MaxRaw,       \* bound on the raw token count of the input (separators included)
           AnyInput      \* FALSE: valid texts only;  TRUE: every kind sequence
 VARIABLES inp, g,       \* input (kinds) under construction and its recogniser state
@@ -111,6 +111,11 @@ Mirrors == (InScope /\ mode = "run") =>
              LET r == RunPDA(SubSeq(inp, 1, Len(out))) IN
              /\ Len(pst) = Len(r.stk) + 1
              /\ \A i \in 1..Len(r.stk) : IF r.stk[i] = 1 THEN pst[i+1] \in {"K", "O"} ELSE pst[i+1] = "A"
+\* the functional form of the model (JsonSepFn.DIter, used by the trace specification to predict the
+\* code's output) is this action system: every step of the loop is DIter, and DRun is where it ends
+Rec == [pos |-> pos, pst |-> pst, nc |-> nc, sc |-> sc, out |-> out, mode |-> mode]
+StepsAgree == [][mode = "run" => Rec' = DIter(inp, Rec)]_vars
+RunAgrees == mode \in {"end", "err"} => Rec = DRun(inp)
 \* the design also explains what the code does with the trailing-comma inputs it tolerates
 \* (not claimed by C07; recorded so that the model is an honest transcription)
 Lenient == (mode = "end" /\ inp = <<"[", "num", ",", "]">>) => out = <<"[", "num", "]">>
